@@ -81,7 +81,20 @@ def check_2d(case):
     fT = (prob.compression_states if morph[4] == 'S' else prob.expansion_states)(ps, list(T))[0]
     phiB, phiT = math.radians(B[3]) - float(fB), math.radians(T[3]) + float(fT)
     if not (abs(phiB - phiT) <= 1e-7 and abs(phiT - cd) <= 1e-7):
-        o.fail('star pressure solves Phi_T(p*) = Phi_B(p*) = slip-line angle (root find converged)', morph, phiB=phiB, phiT=phiT, cd=cd, p_star=ps)
+        # two different things can be behind this: the solver's own objective (public determine_state_functions) is not zero at the reported
+        # p* (fsolve did not converge and nobody looked), or it is zero and the objective itself is not Phi = flow angle -/+ deflection
+        own = None
+        try:
+            tf, bf = cat.quiet(prob.determine_state_functions, ps)
+            if str(prob.morphology) == morph:
+                own = float(tf(ps) - bf(ps))
+        except Exception:  # noqa
+            own = None
+        if own is not None and abs(own) <= 1e-9:
+            o.fail('the balanced pressure-deflection functions are (flow angle of the stream) -/+ (deflection through its wave)', morph, phiB=phiB, phiT=phiT, cd=cd, p_star=ps,
+                   own_objective=own)
+        else:
+            o.fail('star pressure solves Phi_T(p*) = Phi_B(p*) = slip-line angle (root find converged)', morph, phiB=phiB, phiT=phiT, cd=cd, p_star=ps, own_objective=own)
         return o
     o.checks += 1
     # each wave must be of the kind the morphology names (judged by the converged star pressure)
@@ -175,6 +188,17 @@ def check_2d(case):
             o.close('fan interior: point lies on the Mach line through the origin', a_in, a_fl - sgn * math.asin(1 / fi['Mach']), 0.0, atol=1e-6, regime=reg)
             o.close('fan interior: turning so far = nu(M) - nu(M1)', abs(a_fl - th_up), nu_pm(fi['Mach'], g) - nu_pm(M1, g), 0.0, atol=1e-6, regime=reg)
             o.close('fan interior: Mach consistent with speed and sound speed', fi['Mach'], fi['speed'] / math.sqrt(g * fi['pressure'] / fi['density']), 1e-8, regime=reg)
+            # a centred simple wave is continuous and monotone: inside the fan pressure, Mach number and flow direction lie between their
+            # values in the two end states, and tend to them at the head and at the tail
+            lo_, hi_ = sorted((th_up, a_dn))
+            o.true('interior of the fan: flow direction between the upstream and downstream directions', lo_ - 1e-9 <= a_fl <= hi_ + 1e-9, regime=reg, a=a_fl, up=th_up, dn=a_dn, M1=M1)
+            o.true('interior of the fan: pressure between the end-state pressures', dn['pressure'] * (1 - 1e-9) <= fi['pressure'] <= up['pressure'] * (1 + 1e-9), regime=reg, M1=M1)
+            eps_ = 1e-6
+            Fe = _eval(s, [inside(head, tail, eps_), inside(head, tail, 1 - eps_)], case['rad'])
+            for i_, (nm_, end_, a_end) in enumerate((('head', up, th_up), ('tail', dn, a_dn))):
+                o.close('interior of the fan tends to the %s state: pressure' % nm_, float(Fe['pressure'][i_]), end_['pressure'], 1e-4, regime=reg, M1=M1)
+                o.close('interior of the fan tends to the %s state: flow direction' % nm_, math.atan2(float(Fe['y_velocity'][i_]), float(Fe['x_velocity'][i_])), a_end, 0.0,
+                        atol=1e-4, regime=reg, M1=M1)
     o.nontrivial = B[4] != T[4] or B[3] != 0 or T[3] != 0
     return o
 
